@@ -52,6 +52,14 @@ namespace occa {
 
     primitive binaryOpNode::evaluate() const {
       primitive pLeft  = leftValue->evaluate();
+      // && and || don't evaluate their right operand
+      //   when the left one decides the result
+      if ((op.opType & operatorType::and_) && !((bool) pLeft)) {
+        return primitive(false);
+      }
+      if ((op.opType & operatorType::or_) && ((bool) pLeft)) {
+        return primitive(true);
+      }
       primitive pRight = rightValue->evaluate();
       return ((binaryOperator_t&) op)(pLeft, pRight);
     }
